@@ -257,7 +257,7 @@ func (c *c32RefChain) arm() {
 
 // c32RefTimeouts (K): a pending batch must have been flushed by its timer
 // long before K consecutive reference timeouts have elapsed (on the reference
-// tree the most ever seen in a successful wait, on a loaded machine, was 45).
+// tree the most ever seen in ~135000 successful waits, on a loaded machine, was 72).
 const c32RefTimeouts = 1500
 
 // c32RunSeq drives one sequential case (the monitor is the only sender and the only reader).
@@ -829,7 +829,7 @@ func TestC32(t *testing.T) {
 		}
 	}
 	rng := r.Rand("sequential")
-	n := r.N(6000, 300000)
+	n := r.N(6000, 180000)
 	for i := 0; i < n && nFindings < 6 && stuckTotal < 2 && closeHangs < 20 && !gaveUp; i++ {
 		if i%6 == 5 {
 			judgeSeq(c32GenOverflowQuiet(rng))
@@ -860,8 +860,8 @@ func TestC32(t *testing.T) {
 		judgeConc(c)
 	}
 	erng := r.Rand("end-to-end")
-	e := r.N(400, 20000)
-	nBig := r.N(2, 30) // c2s-raw cases with a few MB of 64-128 KiB messages (slow under -race)
+	e := r.N(400, 10000)
+	nBig := r.N(2, 20) // c2s-raw cases with a few MB of 64-128 KiB messages (slow under -race)
 	for i := 0; i < e && nFindings < 6 && !gaveUp; i++ {
 		kind := []string{"c2s-raw", "c2s-raw", "c2s-pubsub", "c2s-raw", "s2c"}[i%5]
 		judgeE2E(c32GenE2E(erng, kind, kind == "c2s-raw" && i/5 < nBig && i%5 == 0))
